@@ -5,6 +5,7 @@
 (*                                                                         *)
 (* Events:                                                                 *)
 (*   newcase                    a fresh set of compressor objects          *)
+(*   frame     key outid ok     one whole frame written by a Writer (C14)  *)
 (*   compress  kind obj depth srcLen dstLen bound n err panicked canary    *)
 (*             srcok srcid outid dec{n,err,same}                           *)
 (*      byte level (big = FALSE):  src, block        - TLC decodes         *)
@@ -73,7 +74,18 @@ TrCompress ==
            /\ hist' = <<>>
            /\ Obligation(r)
 
-TraceNext == TrNewCase \/ TrCompress
+\* frame level (C14): a whole frame emitted for (input, options); the key is everything the bytes may depend on,
+\* NOT the concurrency level, the schedule or the partition of the input into Write calls
+TrFrame ==
+    /\ IsEvent("frame")
+    /\ LET r == Trace[l]
+           k == <<r.key, "frame", 0, 0>>
+       IN  /\ Lookup(k) \subseteq {r.outid}
+           /\ memo' = memo \cup {<<k, r.outid>>}
+           /\ r.ok                                  \* the run itself succeeded (valid frame decoding to the input)
+           /\ UNCHANGED <<uses, ncalls, hist>>
+
+TraceNext == TrNewCase \/ TrCompress \/ TrFrame
 
 TraceSpec == TraceInit /\ [][TraceNext]_<<bvars, l>>
 
